@@ -31,6 +31,10 @@ type Engine struct {
 	lemmas    []*Lemma
 	globalInvs []*GlobalInv
 	lemmaTypes map[string]types.Type
+	lockMode   bool
+	wsCache    map[*ssa.Function]*writeSet
+	sharedTypes map[string]bool
+	waitLevels map[string]int
 	smtLines  []string // repo-level spec theory
 	prelude   string
 	fieldInfo map[string]*FieldClass // "pkg.Type.field" -> classification (C12)
@@ -62,13 +66,22 @@ func loadEngine(repo string, tags string) (*Engine, error) {
 	prog.Build()
 	e := &Engine{repo: repo, fset: prog.Fset, prog: prog, pkgs: pkgs, spkgs: spkgs,
 		allFuncs: map[string]*ssa.Function{}, contracts: map[string]*Contract{}, macros: map[string]*Macro{},
-		specFns: map[string]*SpecFn{}, ghosts: map[string]*GhostVar{}, fieldInfo: map[string]*FieldClass{}, lemmaTypes: map[string]types.Type{}, strLits: map[string]string{}, fltLits: map[string]string{}}
+		specFns: map[string]*SpecFn{}, ghosts: map[string]*GhostVar{}, fieldInfo: map[string]*FieldClass{}, lemmaTypes: map[string]types.Type{}, sharedTypes: map[string]bool{}, waitLevels: map[string]int{}, strLits: map[string]string{}, fltLits: map[string]string{}}
 	// path shortening: import path -> package name
 	var repl []string
 	type pr struct{ path, name string }
 	var prs []pr
+	nameCount := map[string]int{}
+	for _, p := range prog.AllPackages() {
+		nameCount[p.Pkg.Name()]++
+	}
 	for _, p := range prog.AllPackages() {
 		if p.Pkg.Path() != p.Pkg.Name() {
+			// a package name used by several packages (sync / internal/sync) is only shortened for
+			// the one whose path is not internal
+			if nameCount[p.Pkg.Name()] > 1 && (strings.HasPrefix(p.Pkg.Path(), "internal/") || strings.Contains(p.Pkg.Path(), "/internal/") || strings.HasPrefix(p.Pkg.Path(), "vendor/")) {
+				continue
+			}
 			prs = append(prs, pr{p.Pkg.Path(), p.Pkg.Name()})
 		}
 	}
